@@ -14,6 +14,7 @@ mod nav;
 mod compare;
 mod c03;
 mod canon;
+mod c19;
 mod serde_value;
 
 use common::Args;
@@ -40,6 +41,7 @@ fn main() {
         "c10" => (canon::generate_c10, canon::eval_c10),
         "c17" => (serde_value::generate_c17, serde_value::eval_c17),
         "c18" => (serde_value::generate_c18, serde_value::eval_c18),
+        "c19" => (c19::generate, c19::eval),
         other => {
             eprintln!("unknown family {other}");
             std::process::exit(2);
@@ -50,6 +52,9 @@ fn main() {
             let e = &args.extra;
             c03::deep_child(&e[0], e[1].parse().unwrap(), e[2].parse().unwrap(), &e[3]);
         }
+        // C19 runs compiled batches of generated programs
+        "gen" if args.family == "c19" => c19::gen_batch(&args),
+        "eval" if args.family == "c19" => c19::eval_batch(),
         "gen" => {
             let mut out = common::Out::new(&args, eval);
             gen(&args, &mut out);
